@@ -171,14 +171,15 @@ def _function_over_two_vars(repr_func, raw_func, x, y, out=None, out_like=None, 
         if not out_like.signed and signed:
             raise ValueError('Signed addition can not be stored in unsigned `out_like` object!')
         signed = None
-        n_frac = None
+        n_frac = out_like.n_frac    # (the integer codes are calculated at the fraction length of the template, like for `out`)
         n_int = None
         config = None
 
     else:
         config = x.config
 
-    if method == 'repr' or x.scaled or y.scaled or n_frac is None:
+    # (a scaled destination takes values, not codes: its scale and bias are applied by the store)
+    if method == 'repr' or x.scaled or y.scaled or n_frac is None or (out is not None and out.scaled) or (out_like is not None and out_like.scaled):
         raw = False
         val = repr_func(x.get_val(), y.get_val(), **kwargs)
     elif method == 'raw':
@@ -191,7 +192,7 @@ def _function_over_two_vars(repr_func, raw_func, x, y, out=None, out_like=None, 
     if out is not None:
         z = out.set_val(val, raw=raw)
     else:
-        z = Fxp(val, signed=signed, n_int=n_int, n_frac=n_frac, like=out_like, raw=raw, config=config)
+        z = Fxp(val, signed=signed, n_int=n_int, n_frac=n_frac if out_like is None else None, like=out_like, raw=raw, config=config)
 
     # propagate inaccuracy from arguments
     if x.status['inaccuracy'] or y.status['inaccuracy']:
